@@ -166,7 +166,9 @@ def gen_lengths(rng, b, small):
     return cands
 
 
-HOSTILE_ROOT_NAMES = [b"r %d" , b"r'%d", b"r\xc3\xa9'x%d", b"r$%d \xe6\x97\xa5", b"r\t%d\xc4\x99", b"r\"%d\"", b"r\\%d", b"r%d\xc5\xbc\xc3\xb3'\xc5\x82w", b"-r%d"]
+HOSTILE_ROOT_NAMES = [b"r %d" , b"r'%d", b"r\xc3\xa9'x%d", b"r$%d \xe6\x97\xa5", b"r\t%d\xc4\x99", b"r\"%d\"", b"r\\%d", b"r%d\xc5\xbc\xc3\xb3'\xc5\x82w", b"-r%d",
+                      # names ending in non-ASCII white space (NBSP, NEL, ideographic space) and an empty-looking one
+                      b"r%d\xc2\xa0", b"r%d\xc2\x85", b"r%d\xe3\x80\x80", b"\xe2\x80\x83r%d"]
 
 
 RELATED_ROOT_NAMES = ["r1", "r1x", "r1-old", "r1.d", "r12", "r1 2"]
